@@ -17,6 +17,7 @@ type Realm struct {
 	It          *Obj
 	Pool        map[string]Value
 	Log         []string
+	LogN        int
 	Thrown      *Obj
 	objToString *Obj
 	Res         Value // result of the last Try
@@ -172,4 +173,9 @@ func (r *Realm) NewGoSlice(elems []Value, intElem bool) *Obj {
 	return o
 }
 
-func (r *Realm) logf(s string) { r.Log = append(r.Log, s) }
+func (r *Realm) logf(s string) {
+	r.LogN++
+	if r.LogN <= 300 {
+		r.Log = append(r.Log, s)
+	}
+}
